@@ -565,13 +565,14 @@ def toggler_loop_discipline(prog, rep, R, b):
         if tog == "Off":
             ok1 = after is True and marked and comment and parsed
         elif tog == "On":
-            ok1 = after is False and marked and comment and parsed
+            # the On comment belongs to the region it ends; an On comment outside any region is ordinary commentary and is formatted
+            ok1 = after is False and comment and parsed and before is not None and marked == before
         else:
             ok1 = after == "same" and before is not None and marked == before
         if not ok1:
             bad.append({"toggle": tog, "flag_before": before, "flag_after": str(after), "marked": marked})
     rep.check(init_false and not bad and {("Off", None), ("On", None)} <= {(a2, None) for a2, _ in seen} and len(tb.rows) >= 4, R, "toggle:transition-table",
-              "one step of the toggle scan is not: Off comment -> region on, marked; On comment -> region off, marked; anything else -> region unchanged, marked iff inside the region (flag initially off); deviating paths: %s" % bad[:3],
+              "one step of the toggle scan is not: Off comment -> region on, marked; On comment -> region off, marked iff it ends a region; anything else -> region unchanged, marked iff inside the region (flag initially off); deviating paths: %s" % bad[:3],
               where="%s:%d" % (b.file, b.line), instance={"paths": len(tb.rows), "initially_off": init_false, "deviating": bad[:3]})
     marks = [c for c in b.calls() if c.callee == FMT + "TokenMarker::mark"]
     rep.check(len(marks) >= 1 and all(canon(b, m.args[1]).endswith("@Some.0.0") for m in marks), R, "toggle:marks-this-token", "mark() is not called with the index of the token at hand", instance={"mark_calls": len(marks)})
